@@ -3,6 +3,7 @@ package checks
 import (
 	"encoding/json"
 	"fmt"
+	ike "github.com/free5gc/ike"
 	"github.com/free5gc/ike/message"
 
 	"verif/mc/engine"
@@ -19,6 +20,9 @@ type c05Case struct {
 	L     ref.Lib `json:"lib"`
 	LN    string  `json:"libname"`
 	Shape []int   `json:"list_shape,omitempty"` // fwd-shared: the payload list as indices into M.P (equal indices: one object)
+	Suite   int   `json:"suite,omitempty"`    // rev-sk: suite of the independent peer that protects the datagram
+	SenderI bool  `json:"sender_i,omitempty"` // rev-sk
+	SKFlags int   `json:"sk_flags,omitempty"` // rev-sk: flags octet of the SK generic header (critical / reserved bits)
 }
 
 type libVar struct {
@@ -117,7 +121,7 @@ func init() {
 		ID:    "C05",
 		Level: "model_checking",
 		Rule: "same message universe as C03 (builder-op sequences up to the depth bound + all field sweeps). Forward: the library's encoding must be accepted by the strict reference parser (lengths = extents, chain, markers, zero reserved/critical) and parse to the descriptor. " +
-			"Reverse: the reference liberal encoder emits every single sender liberty (each reserved field all-ones, critical flag and reserved generic bits on each payload position, all together, every permutation of <= 4 transforms, reversal/interleaving beyond) and the library must decode to the descriptor. distinct_nontrivial = distinct datagrams with at least one payload that were cross-checked",
+			"Reverse: the reference liberal encoder emits every single sender liberty (each reserved field all-ones, critical flag and reserved generic bits on each payload position, all together, every permutation of <= 4 transforms, reversal/interleaving beyond) and the library must decode to the descriptor; the messages of depth <= 1 additionally as an independent peer sends them inside an IKE SA (protected by the reference SK implementation under a rotating suite and role, every inner liberty, SK generic header flags 0x00 / 0x80 / 0x7f / 0xff) through DecodeDecrypt. distinct_nontrivial = distinct datagrams with at least one payload that were cross-checked",
 		Assumptions: []string{"transform order is compared within each transform type (the library's data model has no cross-type order)",
 			"datagrams with more than one attribute per transform are outside the library's data model and not generated"},
 		Run: func(c *engine.Ctx) {
@@ -131,6 +135,17 @@ func init() {
 				}
 				for _, pm := range transformOrders(m) {
 					evalC05(c, c05Case{Dir: "rev", Name: name, M: pm, LN: "transform-order"})
+				}
+				// the same datagrams as an independent peer sends them inside an IKE SA: protected by the reference
+				// SK implementation, liberties on the inner payloads and on the SK generic header itself (critical flag,
+				// reserved bits); every octet up to the checksum is covered as received
+				if len(m.P) <= 1 {
+					si := int(engine.Hash64([]byte(name)) % 9)
+					for k, lv := range liberties(m, true) {
+						for f, fl := range []int{0, 0x80, 0x7f, 0xff} {
+							evalC05(c, c05Case{Dir: "rev-sk", Name: name, M: m, L: lv.l, LN: lv.name, Suite: (si + k) % 9, SenderI: (k+f)%2 == 0, SKFlags: fl})
+						}
+					}
 				}
 			})
 			// the caller's list may name one payload object more than once (a notification sent twice, one vendor ID
@@ -247,6 +262,10 @@ func evalC05(c *engine.Ctx, cs c05Case) {
 		}
 		return
 	}
+	if cs.Dir == "rev-sk" {
+		evalC05SK(c, cs)
+		return
+	}
 	b, err := ref.Encode(m, cs.L)
 	if err != nil {
 		c.Count("reference_encoder_refused", 1)
@@ -279,6 +298,77 @@ func evalC05(c *engine.Ctx, cs c05Case) {
 		return
 	}
 	c.Sample("reverse", map[string]string{"name": cs.Name, "liberty": cs.LN, "wire": engine.Hex(trunc(b, 96))})
+	if len(m.P) > 0 {
+		c.Distinct(engine.Hash64(b))
+	}
+	if c.State(engine.Hash64(b)) {
+		c.States++
+	}
+}
+
+// evalC05SK: the reference peer protects m (inner liberties cs.L, SK generic header flags cs.SKFlags) and the
+// library, holding the same keys in the opposite role, must decode it to the fields it was built from.
+func evalC05SK(c *engine.Ctx, cs c05Case) {
+	m := cs.M
+	ks := univ.MakeKeySet(cs.Suite, 2, 2)
+	ske, ska := ks.K.SKer, ks.K.SKar
+	if cs.SenderI {
+		ske, ska = ks.K.SKei, ks.K.SKai
+	}
+	_, inner, err := ref.EncodeChain(m.P, cs.L)
+	if err != nil {
+		c.Count("reference_encoder_refused", 1)
+		return
+	}
+	padLen := (16 - (len(inner)+1)%16) % 16
+	iv := univ.Pat(16, 7+cs.Suite)
+	b, err := ref.Protect(ks.Suite, ske, ska, m, cs.L, iv, univ.Pat(padLen, 3))
+	if err != nil {
+		c.Count("reference_protect_refused", 1)
+		return
+	}
+	if cs.SKFlags != 0 {
+		b[29] = byte(cs.SKFlags)
+		icvLen := ks.Suite.Integ.OutLen
+		copy(b[len(b)-icvLen:], ref.HMAC(ks.Suite.Integ.Digest, ska, b[:len(b)-icvLen])[:icvLen])
+	}
+	sa, err := univ.NewSA(ks)
+	if err != nil {
+		c.Violate("sa-construction", errStr(err), cs)
+		return
+	}
+	c.Traces++
+	var got *message.IKEMessage
+	pi := engine.Catch(func() { got, err = ike.DecodeDecrypt(b, nil, sa, roleOf(!cs.SenderI)) })
+	if pi != nil {
+		c.Violate(pi.Sig(), fmt.Sprintf("DecodeDecrypt of a reference-protected datagram (%s, liberty %s, SK flags %#x) panics: %s", cs.Name, cs.LN, cs.SKFlags, pi.Value), cs)
+		return
+	}
+	lname := cs.LN
+	if len(lname) > 9 && lname[:9] == "critical@" {
+		lname = "critical"
+	}
+	if len(lname) > 17 && lname[:17] == "generic.reserved@" {
+		lname = "generic.reserved"
+	}
+	fl := ""
+	if cs.SKFlags != 0 {
+		fl = "/sk-header-flags"
+	}
+	if err != nil {
+		c.Violate("rev-sk/rejected/"+lname+fl, fmt.Sprintf("%s with liberty %s, SK flags %#x, %v: well-formed protected datagram refused: %s", cs.Name, cs.LN, cs.SKFlags, ks.Suite, errStr(err)), cs)
+		return
+	}
+	g := univ.Project(got)
+	if g.Canon() != m.Canon() {
+		d := "header"
+		if g.H == m.H {
+			d = ref.FirstDiff(m.P, g.P)
+		}
+		c.Violate("rev-sk/fields/"+lname+fl+"/"+d, fmt.Sprintf("%s with liberty %s, SK flags %#x: decoded %s, built from %s", cs.Name, cs.LN, cs.SKFlags, trs(g.Canon()), trs(m.Canon())), cs)
+		return
+	}
+	c.Count("reverse_protected_accepted", 1)
 	if len(m.P) > 0 {
 		c.Distinct(engine.Hash64(b))
 	}
